@@ -8,6 +8,9 @@ import os
 import re
 
 
+NOTES = []  # soft notes of the last translate() call: hand-modelled control flow whose text no longer matches
+
+
 class TranslateError(Exception):
     pass
 
@@ -42,6 +45,11 @@ def one_of_lists(body):
 
 
 def translate(repo):
+    del NOTES[:]
+    return _translate(repo)
+
+
+def _translate(repo):
     tag_rs = read(repo, "src/html/tag.rs")
     m = re.search(r"declare_tags!\s*\{(.*?)\n\}", tag_rs, re.S)
     if not m:
@@ -68,7 +76,9 @@ def translate(repo):
     shape = re.sub(r"\s+", " ", upd)
     expect = "let h = self.0; self.0 = if h >> (64 - 5) == 0 { match ch { b'a'..=b'z' | b'A'..=b'Z' => (h << 5) | ((u64::from(ch) & 0x1F) + 5), b'1'..=b'6' => (h << 5) | ((u64::from(ch) & 0x0F) - 1), _ => EMPTY_HASH, } } else { EMPTY_HASH };"
     if expect not in shape:
-        raise TranslateError("local_name.rs: LocalNameHash::update shape changed (hash function is hand-modelled in Model/NameHash.lean)")
+        # the hash function is hand-modelled (Model/NameHash.lean) and compared value by value with the real one by
+        # lane `hash`; a textual change alone is a note, not a broken obligation
+        NOTES.append("local_name.rs: LocalNameHash::update is no longer textually the modelled function (Model/NameHash.lean); lane hash compares the values")
 
     sim_rel = "src/parser/tree_builder_simulator/mod.rs"
     sim = read(repo, sim_rel)
@@ -107,11 +117,19 @@ def translate(repo):
     if not mm:
         # tolerate the inline comment having been collapsed into the single line
         mm = re.search(r"if self\.current_ns == Namespace::Svg && tag_name == Tag::(\w+) \|\| self\.current_ns == Namespace::MathML && tag_name == Tag::(\w+) \{ return true; \} if \(self\.current_ns == Namespace::Svg \|\| self\.current_ns == Namespace::MathML\) && tag_is_one_of!\(tag_name, \[([^\]]*)\]\) \{.*?return true; \} false", leave)
-    if not mm:
-        raise TranslateError(f"{sim_rel}: should_leave_ns shape changed")
-    if (mm.group(1), mm.group(2)) != (svg_tag, math_tag):
-        raise TranslateError(f"{sim_rel}: should_leave_ns uses different root tags than get_feedback_for_start_tag")
-    ns_leave_end = names(mm.group(3))
+    if mm:
+        if (mm.group(1), mm.group(2)) != (svg_tag, math_tag):
+            raise TranslateError(f"{sim_rel}: should_leave_ns uses different root tags than get_feedback_for_start_tag")
+        ns_leave_end = names(mm.group(3))
+    else:
+        # fall back to the data alone: the two root tags next to their namespaces and ONE tag list; the control flow
+        # around them is hand-modelled (Model/TreeSim.lean) and compared with the real simulator by lanes lex / h5 / full
+        roots = re.findall(r"Namespace::(Svg|MathML) && tag_name == Tag::(\w+)", leave)
+        lists = re.findall(r"tag_is_one_of!\(tag_name, \[([^\]]*)\]\)", leave)
+        if sorted(roots) != sorted([("Svg", svg_tag), ("MathML", math_tag)]) or len(lists) != 1 or len(re.findall(r"Tag::\w+", leave)) != 2:
+            raise TranslateError(f"{sim_rel}: should_leave_ns shape changed")
+        ns_leave_end = names(lists[0])
+        NOTES.append(f"{sim_rel}: should_leave_ns is no longer textually the modelled function (Model/TreeSim.lean); data extracted, lanes lex/h5/full compare the behaviour")
 
     fc = re.sub(r"\s+", " ", fn_body(sim, "get_feedback_for_start_tag_in_foreign_content", sim_rel))
     mm = re.search(r"if tag_name == Tag::(\w+) \{", fc)
@@ -162,7 +180,12 @@ def translate(repo):
         tet,
     )
     if not mm or mm.group(1) != g_select or mm.group(2) != g_template:
-        raise TranslateError(f"{g_rel}: track_end_tag shape changed")
+        # fall back to the data alone: the tags tested in track_end_tag, in order, must be the select and template tags
+        # of track_start_tag; the state update itself is hand-modelled (Model/TreeSim.lean Guard.trackEndTag) and
+        # compared with the real guard by lanes lex / h5 in strict mode
+        if re.findall(r"Tag::(\w+)", tet) != [g_select, g_template]:
+            raise TranslateError(f"{g_rel}: track_end_tag shape changed")
+        NOTES.append(f"{g_rel}: track_end_tag is no longer textually the modelled function (Model/TreeSim.lean); data extracted, lanes lex/h5 compare the behaviour")
 
     st_rel = "src/selectors_vm/stack.rs"
     stack = read(repo, st_rel)
@@ -172,7 +195,11 @@ def translate(repo):
         raise TranslateError(f"{st_rel}: is_void_element shape changed")
     ive_n = re.sub(r"\s+", " ", re.sub(r"//[^\n]*", "", ive))
     if not re.search(r"^ ?if tag_is_one_of!\([^)]*\) \{ return false; \} if tag_is_one_of!\([^)]*\) \{ return true; \} if enable_esi_tags \{ if let LocalName::Bytes\(bytes\) = local_name \{ if &\*\*bytes == b\"esi:include\" \|\| &\*\*bytes == b\"esi:comment\" \{ return true; \} \} \} false ?$", ive_n):
-        raise TranslateError(f"{st_rel}: is_void_element control flow changed")
+        # the two tag lists are extracted above; the control flow (fast negative list, void list, ESI names) is
+        # hand-modelled and compared with the real stack by lanes sel / scope / full
+        if ive.count('b"esi:include"') != 1 or ive.count('b"esi:comment"') != 1:
+            raise TranslateError(f"{st_rel}: is_void_element control flow changed")
+        NOTES.append(f"{st_rel}: is_void_element is no longer textually the modelled function; data extracted, lanes sel/scope/full compare the behaviour")
     nonvoid_fast, void = ls
 
     def lst(ns):
